@@ -258,7 +258,8 @@ def litOfFields (s : SchemaD) : Nat → List ArgD → List (String × J) → Opt
   | 0, _, _ => none
   | _+1, [], _ => some []
   | fuel+1, f :: fs, kvs =>
-      match kvs.find? (·.1 == f.name) with
+      -- coerced input objects are keyed by the configured Python names (fix d67cad3): python_name if present, else name
+      match kvs.find? (·.1 == (if (kvs.find? (·.1 == f.pythonName)).isSome then f.pythonName else f.name)) with
       | some (_, v) =>
           match litOf s fuel f.type v, litOfFields s fuel fs kvs with
           | some l, some ls => some ((f.name.toList, l) :: ls)
